@@ -237,12 +237,11 @@ func installCommon(c *Ctx) {
 	}
 	in["(*sync.Mutex).Lock"] = func(c *Ctx, a []Value) Value { c.lock(a[0].(*Ptr).slot); return nil }
 	in["(*sync.Mutex).Unlock"] = func(c *Ctx, a []Value) Value { c.unlock(a[0].(*Ptr).slot); return nil }
-	// RWMutex is modelled as an exclusive lock (readers exclude each other too: a
-	// sound over-approximation of the orderings, and it cannot hide a race)
+	// RWMutex: writers exclusive, readers shared (sched.go rlock/runlock)
 	in["(*sync.RWMutex).Lock"] = in["(*sync.Mutex).Lock"]
 	in["(*sync.RWMutex).Unlock"] = in["(*sync.Mutex).Unlock"]
-	in["(*sync.RWMutex).RLock"] = in["(*sync.Mutex).Lock"]
-	in["(*sync.RWMutex).RUnlock"] = in["(*sync.Mutex).Unlock"]
+	in["(*sync.RWMutex).RLock"] = func(c *Ctx, a []Value) Value { c.rlock(a[0].(*Ptr).slot); return nil }
+	in["(*sync.RWMutex).RUnlock"] = func(c *Ctx, a []Value) Value { c.runlock(a[0].(*Ptr).slot); return nil }
 	// sync.Map: a plain engine map per instance (single-threaded use; with
 	// logical threads every operation is a tracked shared access)
 	smap := func(c *Ctx, recv Value) *Map {
